@@ -86,6 +86,12 @@ type VerifFault struct {
 	CrashWhen func(p VerifPoint, trace []VerifPoint) bool
 	// OnCrash is called just before dying (Kill mode: persist the trace).
 	OnCrash func(p VerifPoint, trace []VerifPoint)
+	// FailOp scripts a step failure by operation/path instead of by number.
+	FailOp func(p VerifPoint) error
+	// FailReadTo makes ReadTo deliver half of the file and then fail.
+	FailReadTo func(path string) error
+	// Peers are frozen together with this backend (one process, two tiers).
+	Peers []*VerifFault
 
 	mu      sync.Mutex
 	n       int
@@ -136,6 +142,12 @@ func (f *VerifFault) fire(p VerifPoint) error {
 		f.mu.Unlock()
 		return e
 	}
+	if f.FailOp != nil {
+		if e := f.FailOp(p); e != nil {
+			f.mu.Unlock()
+			return e
+		}
+	}
 	trace := append([]VerifPoint(nil), f.trace...)
 	hit := f.CrashAt != 0 && p.N == f.CrashAt
 	if !hit && f.CrashWhen != nil && f.Crashed == nil {
@@ -156,6 +168,13 @@ func (f *VerifFault) fire(p VerifPoint) error {
 		f.dead = true
 	}
 	f.mu.Unlock()
+	if f.Mode == VerifFreeze {
+		for _, q := range f.Peers {
+			q.mu.Lock()
+			q.dead = true
+			q.mu.Unlock()
+		}
+	}
 	if f.OnCrash != nil {
 		f.OnCrash(p, trace)
 	}
@@ -296,6 +315,14 @@ func (f *VerifFault) Read(ctx context.Context, path string) ([]byte, error) {
 func (f *VerifFault) ReadTo(ctx context.Context, path string, w io.Writer) error {
 	if f.frozen() {
 		return ErrVerifFrozen
+	}
+	if f.FailReadTo != nil {
+		if e := f.FailReadTo(path); e != nil {
+			if data, rerr := f.Inner.Read(ctx, path); rerr == nil {
+				_, _ = w.Write(data[:len(data)/2])
+			}
+			return e
+		}
 	}
 	return f.Inner.ReadTo(ctx, path, w)
 }
